@@ -76,7 +76,7 @@ func searchFieldName(p *thrift.BinaryProtocol, id string, f *thrift.FieldDescrip
 	for {
 		_, t, i, err := p.ReadFieldBegin()
 		if err != nil {
-			return 0, start, wrapError(meta.ErrRead, "", err)
+			return 0, start, errNode(meta.ErrRead, "", err)
 		}
 		if t == thrift.STOP {
 			return thrift.STRUCT, start, errNotFound
@@ -90,7 +90,7 @@ func searchFieldName(p *thrift.BinaryProtocol, id string, f *thrift.FieldDescrip
 			break
 		}
 		if err := p.Skip(t, UseNativeSkipForGet); err != nil {
-			return thrift.STRUCT, start, wrapError(meta.ErrRead, "", err)
+			return thrift.STRUCT, start, errNode(meta.ErrRead, "", err)
 		}
 	}
 	return
